@@ -6,7 +6,8 @@ A case is JSON-able:
    'sched': None | [choices]}     schedule prefix for vlib.sched (None: never preempt)
   spec = {'name', 'cls': 'L'|'IO'|'HIO'|'PIN', 'export': bool, 'poll': bool, 'writes': [pname],
           'atts': [[aname, target|None, mandatory, kind]], 'te': [aname], 'ti': [aname], 'fe': bool, 'fi': bool,
-          'uri': str|None, 'scan': [name], 'delay': seconds}
+          'uri': str|None, 'scan': [name], 'delay': seconds,
+          'wfail': [[pname, exception class name]]}      start-up faults: write_<pname> raises (optional field)
 kinds: 0 = any Module, 1 = Communicator.  'HIO' is a frappy.io.HasIO user (attachment `io`, optional `uri`).
 
 The real `Server._processCfg` is run (unbound, on a stub carrying exactly the attributes it reads) inside a managed thread of
@@ -30,7 +31,8 @@ from vlib import sched as vsched
 from vlib.node import patch_version
 
 ATT_NAMES = ['a0', 'a1', 'a2', 'a3', 'a4']
-WRITE_NAMES = ['w0', 'w1']
+WRITE_NAMES = ['w0', 'w1', 'w2']
+FAULT_CLASSES = ['HardwareError', 'CommunicationFailedError', 'SilentCommunicationFailedError', 'RuntimeError', 'ValueError']
 TIMEOUT = 30           # Server._processCfg: MultiEvent(default_timeout=30)
 
 _state = types.SimpleNamespace(log=None, specs=None, sched=None, seen_poll=None)
@@ -94,9 +96,19 @@ class Instr:
         return 0.0
 
 
+def _fault(clsname):
+    """the exception a faulty driver / device raises"""
+    import frappy.errors
+    cls = getattr(frappy.errors, clsname, None) or {'RuntimeError': RuntimeError, 'ValueError': ValueError}[clsname]
+    return cls('injected fault')
+
+
 def _make_write(pname):
     def write(self, value):
-        _ev('write', self.name, pname)
+        _ev('write', self.name, pname)          # the attempt: the value reaches the driver
+        for p, clsname in _state.specs.get(self.name, AUTO_SPEC).get('wfail') or ():
+            if p == pname:
+                raise _fault(clsname)           # the device refuses / the driver code is broken
         return value
     write.__name__ = 'write_' + pname
     return write
@@ -372,10 +384,15 @@ def run_case(case, policy=None, max_steps=200000):
 # generators
 # =========================================================================================================
 def mkspec(name, cls='L', export=True, poll=True, writes=(), atts=(), te=(), ti=(), fe=False, fi=False, uri=None,
-           scan=(), delay=0):
+           scan=(), delay=0, wfail=()):
     return {'name': name, 'cls': cls, 'export': bool(export), 'poll': bool(poll), 'writes': list(writes),
             'atts': [list(a) for a in atts], 'te': list(te), 'ti': list(ti), 'fe': bool(fe), 'fi': bool(fi),
-            'uri': uri, 'scan': list(scan), 'delay': int(delay)}
+            'uri': uri, 'scan': list(scan), 'delay': int(delay), 'wfail': [list(w) for w in wfail]}
+
+
+def random_write_faults(rng, writes, p):
+    """every configured write fails with probability p, with an exception class of the catalogue"""
+    return [[w, rng.choice(FAULT_CLASSES)] for w in writes if rng.random() < p]
 
 
 def all_graphs(n):
@@ -419,7 +436,8 @@ def random_graph(rng, n, acyclic):
     return [(i, j) for i in range(n) for j in range(n) if (i != j or rng.random() < 0.3) and rng.random() < p]
 
 
-VARIANTS = ['plain', 'plain', 'plain', 'plain', 'touchy', 'touchy', 'fail', 'missing', 'hio', 'hio', 'pin', 'slow']
+VARIANTS = ['plain', 'plain', 'plain', 'plain', 'touchy', 'touchy', 'fail', 'missing', 'hio', 'hio', 'pin', 'slow',
+            'wfault', 'wfault']
 
 
 def build_case(rng, n, edges, variant):
@@ -433,11 +451,20 @@ def build_case(rng, n, edges, variant):
         if variant == 'touchy' and rng.random() < 0.3:
             ti = ti + ti[:1]                 # used twice
         writes = rng.choice([[], [], ['w0'], ['w1'], ['w0', 'w1']])
+        wfail = []
+        if variant == 'wfault':
+            # start-up faults: several configured values, any of the writes refused / crashing (any position)
+            writes = rng.choice([['w0', 'w1'], ['w0', 'w1', 'w2'], ['w0', 'w1', 'w2'], ['w1', 'w2'], ['w0', 'w2'], ['w1'], []])
+            wfail = random_write_faults(rng, writes, rng.choice([0.3, 0.5, 1.0]))
+        elif writes and rng.random() < 0.15:
+            wfail = random_write_faults(rng, writes, 0.6)
         mods.append(mkspec('m%d' % i, export=rng.random() < 0.7, poll=rng.random() < 0.7, writes=writes, atts=atts,
-                           te=te, ti=ti))
+                           te=te, ti=ti, wfail=wfail))
         if rng.random() < 0.25 and 'a4' not in [x[0] for x in atts]:
             mods[-1]['atts'].append(['a4', None, False, 0])        # optional attachment left empty
     dyn = []
+    if variant == 'wfault' and rng.random() < 0.5:
+        variant = 'hio'                     # ... on modules sharing the poll thread of a communicator
     if variant == 'fail' and mods:
         m = rng.choice(mods)
         m[rng.choice(['fe', 'fi'])] = True
@@ -482,8 +509,9 @@ def build_case(rng, n, edges, variant):
         for dn in names:
             targets = rng.sample(range(n), min(n, rng.choice([0, 1, 2]))) if n else []
             atts = [['a%d' % j, 'm%d' % j, True, 0] for j in targets]
+            writes = rng.choice([[], ['w0'], ['w0', 'w1']])
             dyn.append(mkspec(dn, export=rng.random() < 0.7, poll=rng.random() < 0.7,
-                              writes=rng.choice([[], ['w0']]), atts=atts,
+                              writes=writes, atts=atts, wfail=random_write_faults(rng, writes, 0.3),
                               ti=[a[0] for a in atts if rng.random() < 0.5]))
         pin = mkspec('p', cls='PIN', export=rng.random() < 0.3, poll=rng.random() < 0.5, scan=names)
         mods.insert(rng.randint(0, len(mods)), pin)
@@ -591,6 +619,8 @@ def features(case):
                 items.append((f, sp['name'], i))
         for w in sp['writes']:
             items.append(('w', sp['name'], w))
+        for w, _c in sp.get('wfail') or []:
+            items.append(('wf', sp['name'], w))
         for f in ('fe', 'fi', 'delay', 'uri'):
             if sp[f]:
                 items.append((f, sp['name']))
@@ -618,6 +648,7 @@ def rebuild(case, items):
                        te=[a for i, a in enumerate(sp['te']) if ('te', n, i) in items and a in have],
                        ti=[a for i, a in enumerate(sp['ti']) if ('ti', n, i) in items and a in have],
                        writes=[w for w in sp['writes'] if ('w', n, w) in items],
+                       wfail=[list(w) for w in sp.get('wfail') or [] if ('wf', n, w[0]) in items and ('w', n, w[0]) in items],
                        fe=sp['fe'] and ('fe', n) in items, fi=sp['fi'] and ('fi', n) in items,
                        delay=sp['delay'] if ('delay', n) in items else 0,
                        uri=sp['uri'] if ('uri', n) in items else None,
@@ -679,6 +710,8 @@ def signature(case, clause, obs):
         tag = 'typed'
     elif any(sp['fe'] or sp['fi'] for sp in specs):
         tag = 'failing-init'
+    elif any(sp.get('wfail') for sp in specs):
+        tag = 'write-fault'
     elif obs['errors']:
         tag = 'errors'
     elif any(not sp['export'] for sp in specs if sp['cls'] != 'PIN'):
@@ -732,7 +765,7 @@ def run(ctx):
         # every variant, on 4 modules with one (quick) / three (thorough) random variants
         for n in (1, 2, 3):
             for edges in all_graphs(n):
-                for v in (['plain', 'touchy', 'fail', 'missing', 'hio', 'pin', 'slow'] if n > 1 else VARIANTS):
+                for v in (['plain', 'touchy', 'fail', 'missing', 'hio', 'pin', 'slow', 'wfault'] if n > 1 else VARIANTS):
                     yield f'n{n}', build_case(rng, n, edges, v)
         for _ in range(ctx.budget(300, 3000)):      # self loops, random schedules
             n = rng.choice([2, 3, 4])
